@@ -703,3 +703,148 @@ Print Assumptions pml_behaviour_preserved_history_instance.
 Theorem pml_behaviour_prefix_history_instance : forall fp ff, behaviour_prefix pml_repaired w_hist_doc 7 13 fp ff.
 Proof. exact hist_prefix_instance. Qed.
 Print Assumptions pml_behaviour_prefix_history_instance.
+
+From V Require Import EngineEquivRun EngineEquivMain EngineEquivHistRun EngineEquivHistMain FlattenStaticTree FlattenStaticMain PmlEquivDoc PmlEquivDocConflict.
+
+
+(* ==== against the interpreter's default engine (LargeMicroStep), and for documents ============================== *)
+
+(* U (every history-free chart that passes the engine-equivalence guard eq_chartb, the four template switches off,
+   content / data / event-name conditions as in pml_run_equiv_partial; dynamic guard eq_guard_run on the
+   interpreter run -- the queues' and the data model's conditions of the engine equivalence; every fuel): a run of
+   the emitted Promela step process that does not overflow a queue is a run of the interpreter with its DEFAULT
+   engine (Large.large_step): same configuration, same recorded history, same store, same queues (event names),
+   same printed lines, and a terminated model means a finished interpreter (final_large). *)
+Theorem pml_run_equals_default_engine_partial : forall pv c iq eq (P : bytes -> Prop),
+  pv_in_reads_root pv = false -> pv_cond_bare pv = false -> pv_hist_covered pv = false -> pv_found_stale pv = false ->
+  eq_chartb c = true -> content_ok (chart_dom c) c = true -> (forall i, i <> 0 -> fs_data (st c i) = []) ->
+  data_okb [] (fs_data (st c 0)) = true ->
+  (forall e, P e -> e <> []) -> chart_names P c ->
+  (forall j, (is_par (ptype c j) = true \/
+              exists i, is_fin (ptype c i) = true /\ fs_parent (st c i) = Some j /\ mem 1 (fs_children (st c j)) = false) ->
+             P (done_name c j)) ->
+  (forall i name, P name -> i < ntrans c -> ft_spontaneous (tr c i) = false ->
+     resolved_match (guard_literals pv c i) name = name_match_impl nm_fixed (ft_event (tr c i)) name) ->
+  (forall m, eq_guard_run ex_fixed c m l_pristine x_init [] = true) ->
+  forall fuel s' r,
+  pml_loop pv c iq eq (S fuel) (p_init c) = (s', r) -> p_full s' = false -> r <> PFull ->
+  exists m l' x', run_loop c lstate (large_step lg_fixed ex_fixed c) l_cfg m l_pristine x_init [] = (l', x') /\
+                  final_large c r s' l' x'.
+Proof. exact pml_run_equals_default_engine_partial_lemma. Qed.
+Print Assumptions pml_run_equals_default_engine_partial.
+
+(* U (the same for charts with <initial>, deep / multiple initial attributes and <history>: eq_chartb_hist,
+   eq_guard_run_hist, the repaired template, chart_ph0 -- a theorem for documents up to pml_deep_alone, see below). *)
+Theorem pml_run_equals_default_engine_history_partial : forall pv c iq eq (P : bytes -> Prop),
+  pv_repaired pv -> eq_chartb_hist c = true -> chart_ph0 c = true ->
+  content_ok (chart_dom c) c = true -> (forall i, i <> 0 -> fs_data (st c i) = []) ->
+  data_okb [] (fs_data (st c 0)) = true ->
+  (forall e, P e -> e <> []) -> chart_names P c ->
+  (forall j, (is_par (ptype c j) = true \/
+              exists i, is_fin (ptype c i) = true /\ fs_parent (st c i) = Some j /\ mem 1 (fs_children (st c j)) = false) ->
+             P (done_name c j)) ->
+  (forall i name, P name -> i < ntrans c -> ft_spontaneous (tr c i) = false ->
+     resolved_match (guard_literals pv c i) name = name_match_impl nm_fixed (ft_event (tr c i)) name) ->
+  (forall m, eq_guard_run_hist ex_fixed c m l_pristine x_init [] = true) ->
+  forall fuel s' r,
+  pml_loop pv c iq eq (S fuel) (p_init c) = (s', r) -> p_full s' = false -> r <> PFull ->
+  exists m l' x', run_loop c lstate (large_step lg_fixed ex_fixed c) l_cfg m l_pristine x_init [] = (l', x') /\
+                  final_large c r s' l' x'.
+Proof. exact pml_run_equals_default_engine_history_partial_lemma. Qed.
+Print Assumptions pml_run_equals_default_engine_history_partial.
+
+(* U (every document, both bindings): the flags of the transitions of a flat chart are the kinds of their sources
+   (a transition of a <history> is flagged history, of an <initial> initial, of a proper state neither). *)
+Theorem pml_trans_kinds_document : forall late t, trans_kindsb (flatten late t) = true.
+Proof. exact trans_kinds_flatten. Qed.
+Print Assumptions pml_trans_kinds_document.
+
+(* U (every chart with pseudo-states that passes wf_histb, with a compound root and transition sources in range):
+   the conflict table the emitted model is built from (exit sets of proper states intersect) is FastMicroStep's
+   conflict matrix (exit intervals overlap): the domain of a transition is a compound state or the root, and a
+   compound state has a proper descendant. *)
+Theorem pml_conflict_table_history : forall c, LegalHistBase.WFH c -> fs_type (st c 0) = FCompound ->
+  (forall ti, ti < ntrans c -> ft_source (tr c ti) < nstates c) -> conflict_tableb c = true.
+Proof. exact conflict_table_hist. Qed.
+Print Assumptions pml_conflict_table_history.
+
+(* U (every document that passes hist_treeb, both bindings). *)
+Theorem pml_conflict_table_document : forall late t, hist_treeb t = true -> conflict_tableb (flatten late t) = true.
+Proof. exact conflict_table_document. Qed.
+Print Assumptions pml_conflict_table_document.
+
+(* U (every document that passes hist_treeb with at least one transition, early binding, the repaired template; of
+   the chart conditions of pml_behaviour_preserved_history only pml_deep_alone remains -- wf_histb, compound root,
+   trans_lists, trans_kindsb, conflict_tableb, the ascending root completion are theorems; content / data /
+   event-name conditions as before; every pair of bounds, the model's run must not overflow a queue). *)
+Theorem document_pml_behaviour_preserved : forall t iq eq (P : bytes -> Prop),
+  pml_deep_alone (flatten false t) = true ->
+  content_ok (chart_dom (flatten false t)) (flatten false t) = true ->
+  data_okb [] (fs_data (st (flatten false t) 0)) = true ->
+  (forall e, P e -> e <> []) -> chart_names P (flatten false t) ->
+  (forall j, (is_par (ptype (flatten false t) j) = true \/
+              exists i, is_fin (ptype (flatten false t) i) = true /\ fs_parent (st (flatten false t) i) = Some j /\
+                        mem 1 (fs_children (st (flatten false t) j)) = false) ->
+             P (done_name (flatten false t) j)) ->
+  (forall i name, P name -> i < ntrans (flatten false t) -> ft_spontaneous (tr (flatten false t) i) = false ->
+     resolved_match (guard_literals pml_repaired (flatten false t) i) name =
+     name_match_impl nm_fixed (ft_event (tr (flatten false t) i)) name) ->
+  hist_treeb t = true -> 0 < ntrans (flatten false t) ->
+  forall fp ff, p_full (fst (pml_loop pml_repaired (flatten false t) iq eq fp (p_init (flatten false t)))) = false ->
+  behaviour_preserved pml_repaired t iq eq fp ff.
+Proof. exact document_behaviour_preserved. Qed.
+Print Assumptions document_pml_behaviour_preserved.
+
+(* U (the same without the overflow condition: the model's observations are a prefix). *)
+Theorem document_pml_behaviour_prefix : forall t iq eq (P : bytes -> Prop),
+  pml_deep_alone (flatten false t) = true ->
+  content_ok (chart_dom (flatten false t)) (flatten false t) = true ->
+  data_okb [] (fs_data (st (flatten false t) 0)) = true ->
+  (forall e, P e -> e <> []) -> chart_names P (flatten false t) ->
+  (forall j, (is_par (ptype (flatten false t) j) = true \/
+              exists i, is_fin (ptype (flatten false t) i) = true /\ fs_parent (st (flatten false t) i) = Some j /\
+                        mem 1 (fs_children (st (flatten false t) j)) = false) ->
+             P (done_name (flatten false t) j)) ->
+  (forall i name, P name -> i < ntrans (flatten false t) -> ft_spontaneous (tr (flatten false t) i) = false ->
+     resolved_match (guard_literals pml_repaired (flatten false t) i) name =
+     name_match_impl nm_fixed (ft_event (tr (flatten false t) i)) name) ->
+  hist_treeb t = true -> 0 < ntrans (flatten false t) ->
+  forall fp ff, behaviour_prefix pml_repaired t iq eq fp ff.
+Proof. exact document_behaviour_prefix. Qed.
+Print Assumptions document_pml_behaviour_prefix.
+
+(* U (every document that passes eq_tree_histb = hist_treeb and every <parallel> has a child; dynamic guard
+   eq_guard_run_hist on the interpreter run): the emitted model's run is the DEFAULT engine's run. *)
+Theorem document_pml_run_equals_default_engine_partial : forall t iq eq (P : bytes -> Prop),
+  pml_deep_alone (flatten false t) = true ->
+  content_ok (chart_dom (flatten false t)) (flatten false t) = true ->
+  data_okb [] (fs_data (st (flatten false t) 0)) = true ->
+  (forall e, P e -> e <> []) -> chart_names P (flatten false t) ->
+  (forall j, (is_par (ptype (flatten false t) j) = true \/
+              exists i, is_fin (ptype (flatten false t) i) = true /\ fs_parent (st (flatten false t) i) = Some j /\
+                        mem 1 (fs_children (st (flatten false t) j)) = false) ->
+             P (done_name (flatten false t) j)) ->
+  (forall i name, P name -> i < ntrans (flatten false t) -> ft_spontaneous (tr (flatten false t) i) = false ->
+     resolved_match (guard_literals pml_repaired (flatten false t) i) name =
+     name_match_impl nm_fixed (ft_event (tr (flatten false t) i)) name) ->
+  eq_tree_histb t = true ->
+  (forall m, eq_guard_run_hist ex_fixed (flatten false t) m l_pristine x_init [] = true) ->
+  forall fuel s' r,
+  pml_loop pml_repaired (flatten false t) iq eq (S fuel) (p_init (flatten false t)) = (s', r) ->
+  p_full s' = false -> r <> PFull ->
+  exists m l' x', run_loop (flatten false t) lstate (large_step lg_fixed ex_fixed (flatten false t)) l_cfg m
+                    l_pristine x_init [] = (l', x') /\
+                  final_large (flatten false t) r s' l' x'.
+Proof. exact document_run_equals_default_engine. Qed.
+Print Assumptions document_pml_run_equals_default_engine_partial.
+
+(* non-vacuity: the document with an <initial> element with content, a shallow and a deep history passes the
+   document guards, and the document theorem applies to it for every bound on the interpreter. *)
+Theorem document_pml_guards_instance :
+  hist_treeb w_hist_doc = true /\ eq_tree_histb w_hist_doc = true /\ pml_deep_alone (flatten false w_hist_doc) = true /\
+  conflict_tableb (flatten false w_hist_doc) = true.
+Proof. exact doc_guards_instance. Qed.
+Print Assumptions document_pml_guards_instance.
+Theorem document_pml_behaviour_preserved_instance : forall ff, behaviour_preserved pml_repaired w_hist_doc 7 13 30 ff.
+Proof. exact document_behaviour_instance. Qed.
+Print Assumptions document_pml_behaviour_preserved_instance.
